@@ -440,9 +440,89 @@ def _on_construct(ip, st, obj, node):
                 status = ip.calendar_status(st, y, m, d)
             else:
                 status = _doy_status(ip, st, m, d)
+            if status == "UNCHECKED":
+                # no provenance argument: decide by evaluating the path condition over
+                # every (year, month, day) the fields can take on this path
+                if _semantic_calendar(ip, st, y if isinstance(y, IntV) else None, m, d):
+                    status = "CHECKED"
             obj.cal = {"CONST-OK": "REAL", "CONST-BAD": "UNCHECKED"}.get(status, status)
         else:
             obj.cal = "NA"
+
+
+YEAR_SAMPLES = (1, 4, 19, 20, 96, 99, 100, 1800, 1900, 1996, 1999, 2000, 2019, 2020, 2023, 2024, 2029,
+                2100, 2196, 2199, 2200, 2400)
+
+
+def _leaf_domain(ip, st, leaf):
+    """Values a leaf of a summary term can take: (list, complete?)"""
+    from . import e2_regex as _e2
+    lo = hi = None
+    if leaf[0] == "int" and leaf[1][0] == "group":
+        _, P = ip.ctx.wrapped(leaf[1][1])
+        rng = _e2.int_range_of_group(P, leaf[1][2])
+        if rng is None:
+            return None
+        lo, hi = rng
+        name = leaf[1][2]
+    elif leaf[0] == "attr":
+        name = leaf[2]
+        for o in st.heap.values():
+            if o.sym == leaf[1]:
+                v = o.attrs.get(leaf[2])
+                if isinstance(v, IntV):
+                    lo, hi = v.lo, v.hi
+        if lo is None:
+            return None
+    elif leaf == ("ts",):
+        return None
+    else:
+        return None
+    if hi - lo <= 64:
+        return list(range(int(lo), int(hi) + 1))
+    return sorted({int(x) for x in YEAR_SAMPLES if lo <= x <= hi} | {int(lo), int(min(hi, 10 ** 6))})
+
+
+def _semantic_calendar(ip, st, y, m, d):
+    import datetime as _dtm
+    import itertools
+    from . import e4_order as e4
+    from .checks.relspec import leaves_of
+    from .core import Undecided
+    terms = [y.sym if y is not None else None, m.sym, d.sym]
+    leaves = set()
+    for t in terms:
+        if t is not None:
+            leaves_of(t, leaves)
+    for c, _ in st.conds:
+        leaves_of(c, leaves)
+    order = sorted(leaves, key=repr)
+    doms = []
+    size = 1
+    for l in order:
+        dm = _leaf_domain(ip, st, l)
+        if dm is None:
+            return False
+        doms.append(dm)
+        size *= max(len(dm), 1)
+        if size > 400000:
+            return False
+    try:
+        f = e4.compile_path(st.conds, terms, order)
+    except Undecided:
+        return False
+    n = 0
+    for combo in itertools.product(*doms):
+        r = f(list(combo))
+        if r is None:
+            continue
+        n += 1
+        yy, mm, dd = r
+        try:
+            _dtm.date(int(yy) if yy is not None else 2000, int(mm), int(dd))
+        except (ValueError, TypeError, OverflowError):
+            return False
+    return n > 0
 
 
 def _doy_status(ip, st, m, d):
